@@ -34,7 +34,7 @@ CLAIMS = {
   'Lean 4 invariant proof (peeling closure) + per-call correspondence', 'DESIGN.md section 4, C04 and appendix C.5'),
  'C05': (M, 'proof',
   'Theorems over the RFC 5170 transcription using the translated PRNG: the matrix is independent of the previous global PRNG state for '
-  'valid seeds, an invalid seed keeps the state (why it must be rejected), N1>r rejected; C05_matrix_wf: EVERY matrix the construction returns, for every (k, n-k, N1, seed) and every rounding operator of the binary64 standard model, has n-k equations, no repeated entry, entries below n, no single-entry equation and the staircase shape (the hypotheses of the decoder theorems C01/C03/C04, which therefore hold for every accepted configuration: C05_configured_session). Termination of the rejection loops for every seed is not proved (fuel 2^31). Tie: the parity-check '
+  'valid seeds, an invalid seed keeps the state (why it must be rejected), N1>r rejected; C05_construction_total: the construction returns a matrix for every valid seed, N1<=n-k and sizes below 2^30 (termination of the rejection loops); C05_matrix_wf: EVERY matrix the construction returns, for every (k, n-k, N1, seed) and every rounding operator of the binary64 standard model, has n-k equations, no repeated entry, entries below n, no single-entry equation and the staircase shape (the hypotheses of the decoder theorems C01/C03/C04, which therefore hold for every accepted configuration: C05_configured_session). Termination of the rejection loops for every seed is not proved (fuel 2^31). Tie: the parity-check '
   'matrix of real encoder and decoder sessions is dumped after arbitrary other sessions (including near twins that differ in one of N1, seed, k, r) and compared row by row with the model and with an independent Python transcription.',
   'Lean 4 theorems over RFC 5170 model + matrix dump correspondence', 'DESIGN.md section 4, C05'),
  'C06': (M, 'proof',
@@ -44,7 +44,7 @@ CLAIMS = {
   'GF(2^4), seeded k for GF(2^8), LDPC grid.',
   'Lean 4 theorems + generator/equation correspondence on unit payloads', 'DESIGN.md section 4, C06'),
  'C09': (M, 'proof',
-  'Theorem C09_accept_iff: the model accepts parameters iff they are within the advertised limits (limits regenerated from the #defines); '
+  'Over the code itself (Gen/Validate.lean, regenerated each run by the translator in cut mode from of_openfec_api.c and the four *_api.c files): C09_generic_validation, C09_rs8_validation, C09_rs2m_validation, C09_ldpc_validation, C09_2d_validation state exactly which arguments pass each function\'s validation prefix, and C09_limits_are_the_code shows that the acceptance predicate of the session model is the conjunction of the translated checks with the limits regenerated from the headers. Theorem C09_accept_iff_limits: the session model returns OK if and only if the parameters are within the advertised limits (limits regenerated from the #defines), with no side condition: the LDPC-Staircase matrix construction is proved to return for every configuration inside the limits and every seed (termination of the RFC 5170 rejection loops: 2^31-1 prime, 16807 primitive root by the Lucas test, every value below a loop bound is the scaled output of some state under every binary64 rounding, every loop is entered with an acceptable value); '
   'rejected calls leave the session unconfigured; out-of-range ESIs are rejected. Tie: boundary grid of every field on the real library '
   'in forked children under ASan, followed by a full encode/decode cycle after each accepted configuration. One listed known finding '
   '(RS GF(2^m) n>2^m-1, required by the pinned suite).',
